@@ -19,7 +19,7 @@
 //! Mutators allow injecting controlled variations during pickle generation
 //! to create more diverse test cases for fuzzing and validation.
 
-use crate::generator::GenerationSource;
+use crate::generator::{EntropySource, GenerationSource};
 use clap::ValueEnum;
 
 use crate::stack::StackObjectRef;
@@ -39,6 +39,29 @@ pub use memoindex::MemoIndexMutator;
 pub use offbyone::OffByOneMutator;
 pub use stringlen::StringLengthMutator;
 pub use typeconfusion::TypeConfusionMutator;
+
+/// Decide whether a mutation fires for the given mutation rate.
+///
+/// Always draws exactly one value from the source so the entropy stream stays
+/// aligned. A rate of 0.0 (or below) never fires and a rate of 1.0 (or above)
+/// always fires, whatever the draw is. In between the mutation fires when the
+/// draw does not exceed the rate; fuzzer-provided draws are arbitrary bit patterns
+/// (NaN, infinities, huge or negative values) and are folded into [0, 1) first.
+pub(crate) fn should_mutate(source: &mut GenerationSource, rate: f64) -> bool {
+    let draw = source.gen_f64();
+    if rate <= 0.0 {
+        return false;
+    }
+    if rate >= 1.0 {
+        return true;
+    }
+    let draw = if (0.0..1.0).contains(&draw) {
+        draw
+    } else {
+        (draw.to_bits() >> 11) as f64 / (1u64 << 53) as f64
+    };
+    !(draw > rate)
+}
 
 /// Snapshot of generator state before an opcode emission.
 ///
